@@ -27,10 +27,12 @@ THEOREMS = {
     # module NonVacuity imports C08Complete and C09Complete (hence C02, C07Data, C08, C09, C18): a concrete dataset meeting every hypothesis, on which all four calculations succeed
     "C08": ("TrVerif.Props.NonVacuity", ["Tr.C07_scan_start", "Tr.C08_sound", "Tr.C08_complete", "Tr.C08_earliest", "Tr.forwardNode_sound", "Tr.fwdScanList_inv", "Tr.fwdStep_inv", "Tr.init_FInv",
                                          "Tr.fwdScanList_FC", "Tr.fwdStep_FC", "Tr.init_FC", "Tr.FW_dataset", "Tr.fwdIndex_spec",
-                                         "Tr.nv_hypotheses", "Tr.nv_hypotheses_complete", "Tr.nv_results"]),
+                                         "Tr.calculateAllNodes_no_exception", "Tr.forwardNode_no_exception", "Tr.fwdChain_terminates", "Tr.fwdScanList_FCh",
+                                         "Tr.nv_hypotheses", "Tr.nv_hypotheses_complete", "Tr.nv_hypotheses_reverse", "Tr.nv_nonneg", "Tr.nv_results"]),
     "C09": ("TrVerif.Props.NonVacuity", ["Tr.C07_scan_start", "Tr.C09_sound", "Tr.C09_complete", "Tr.C09_latest", "Tr.reverseNode_sound", "Tr.collectNodes_sorted", "Tr.collectNodes_mem",
                                          "Tr.revScanList_RC", "Tr.revStep_RC", "Tr.init_RC", "Tr.RW_dataset", "Tr.revIndex_spec",
-                                         "Tr.nv_hypotheses", "Tr.nv_hypotheses_reverse", "Tr.nv_results"]),
+                                         "Tr.calculateAllNodes_no_exception", "Tr.reverseNode_no_exception", "Tr.reconLoop_terminates", "Tr.optimizeJourney_terminates'", "Tr.applyFound_shape",
+                                         "Tr.nv_hypotheses", "Tr.nv_hypotheses_complete", "Tr.nv_hypotheses_reverse", "Tr.nv_nonneg", "Tr.nv_results"]),
     "C10": ("TrVerif.Props.NonVacuity", ["Tr.C10_alternatives", "Tr.C10_no_better_forward", "Tr.C10_no_better_reverse", "Tr.C10_alt_times", "Tr.alternatives_from", "Tr.altLoop_from",
                                          "Tr.calcWith_attained_fwd", "Tr.calcWith_attained_rev", "Tr.AdmFwd.ctxLe", "Tr.AdmRev.ctxLe", "Tr.C03_optimal", "Tr.C04_optimal", "Tr.C01_with",
                                          "Tr.nv_hypotheses", "Tr.nv_hypotheses_complete", "Tr.nv_results"]),
@@ -125,14 +127,18 @@ _reg("C08", "PROOF (full, over the model, on the property's own domain): Tr.C08_
      "where such a traveller can alight within max_travel_time is listed; Tr.C08_earliest - the listed nodeTime is no later than ANY such alighting at that stop; totalTravelTime = nodeTime - "
      "requested time, each stop once ascending, totalNodeCount = number of stops. Hypotheses = the property's domain: well-formed data, positive hop times, every stop transferable to itself in "
      "0 s, non-negative walks, first-waiting cap disabled, clock values in [0, 32 h), router lists each stop once (all satisfiable: Tr.nv_hypotheses*). Proved by a soundness and a completeness "
-     "invariant of the forward scan (Tr.fwdStep_inv, Tr.fwdStep_FC) and the transparency of the hour index (Tr.fwdIndex_spec). " + _M + "; the brute-force reference solver is still run on every answer.",
+     "invariant of the forward scan (Tr.fwdStep_inv, Tr.fwdStep_FC) and the transparency of the hour index (Tr.fwdIndex_spec). The theorems speak about a returned map; that a map (or "
+     "no_routing_found) IS returned for every accessibility query - never the model's `exception` outcome, i.e. the chain walk that counts transfers ends and no index is read out of bounds - is "
+     "Tr.calculateAllNodes_no_exception (tentative times strictly decrease along the chain: invariant Tr.fwdScanList_FCh, Tr.fwdChain_terminates). " + _M + "; the brute-force reference solver is still run on every answer.",
      "Lean 4 theorems (soundness + completeness invariants of the forward scan, hour-index transparency) + differential correspondence + reference solver")
 _reg("C09", "PROOF (full, over the model, on the property's own domain - in fact without the 'uniform minimum waiting' restriction): Tr.C09_sound - every listed stop is usable with the reported time "
      "(a chain of scheduled rides boards there at nodeTime + minimum waiting and reaches an offered stop in time); Tr.C09_complete - every stop with a boarding from which the place can still be "
      "reached by the requested time within max_travel_time (inductive specification RReach) is listed; Tr.C09_latest - nodeTime is at least departure - minimum waiting of ANY such boarding at "
      "that stop; totalTravelTime = requested - nodeTime <= max_travel_time, each stop once ascending, totalNodeCount. Hypotheses: well-formed data, positive hop times, non-negative egress walks, "
      "router lists each stop once, request time >= 0 (satisfiable: Tr.nv_hypotheses*). Proved by a soundness and a completeness invariant of the reverse scan (Tr.revStep_inv, Tr.revStep_RC) and the "
-     "transparency of the reverse hour index (Tr.revIndex_spec). " + _M + "; the brute-force reference solver is still run on every answer.",
+     "transparency of the reverse hour index (Tr.revIndex_spec). The theorems speak about a returned map; that a map (or no_routing_found) IS returned for every accessibility query - never the model's "
+     "`exception` outcome: the reconstruction chain and the clean-up loop end, the last stop is one the router offers, no index is read out of bounds - is Tr.calculateAllNodes_no_exception "
+     "(Tr.reverseNode_no_exception; the clean-up runs here on a journey without access step: Tr.applyFound_shape, Tr.optimizeJourney_terminates'; needs arrival times >= 0). " + _M + "; the brute-force reference solver is still run on every answer.",
      "Lean 4 theorems (soundness + completeness invariants of the reverse scan, hour-index transparency) + differential correspondence + reference solver")
 _reg("C10", "PROOF (over the model; clause (c) partly): Tr.C10_alternatives - (a) same success/failure and reason as without alternatives, (b) routes[0] is the plain answer, (d) pairwise distinct "
      "sorted line lists, (f) at most 50 routes and totalRoutesCalculated >= their number, for ALL datasets and queries. (e) Tr.C10_no_better_forward / Tr.C10_no_better_reverse - on the domains of "
